@@ -24,6 +24,8 @@ IdentOf(n) == CASE n = "a" -> [s |-> <<"a">>, raw |-> FALSE]
                 [] n = "URL" -> [s |-> <<"U","R","L">>, raw |-> FALSE]
                 [] n = "API_KEY" -> [s |-> <<"A","P","I","_","K","E","Y">>, raw |-> FALSE]
                 [] n = "userName" -> [s |-> <<"u","s","e","r","N","a","m","e">>, raw |-> FALSE]
+                \* a non-ASCII lower-case letter (token <e> = e with acute, spec/Chars.tla): serde's rules move ASCII letters only
+                [] n = "caf<e>_max" -> [s |-> <<"c","a","f","<e>","_","m","a","x">>, raw |-> FALSE]
                 [] n = "HTTPServer2" -> [s |-> <<"H","T","T","P","S","e","r","v","e","r","2">>, raw |-> FALSE]
 RenameOf(n) == CASE n = "none" -> None
                  [] n = "other" -> <<"o","t","h","e","r">>
